@@ -97,7 +97,7 @@ def shrink(spec, binp, case, seed, kind, budget=60):
     def fails(ops):
         c = Case(case.name, ops, case.meta, mode=case.mode)
         try:
-            tr = {b: run_cases(binp, [c], b, seed, shards=1).get(c.name, []) for b in spec.backends}
+            tr = {b: run_cases(binp, [c], b, seed, shards=1).get(c.name, []) for b in spec.backends if c.meta.get("only", b) == b}
         except Exception:
             return False
         o = Outcome()
@@ -164,17 +164,17 @@ def run_l1_property(spec, tier, seed, replay=None, proof=None):
         if getattr(spec, "overlap", False):
             from .props_conc import overlap_cases
             cases += overlap_cases(spec.id, rng, tier)
-    results = {b: run_cases(binp, cases, b, seed) for b in spec.backends}
+    results = {b: run_cases(binp, [c for c in cases if c.meta.get("only", b) == b], b, seed) for b in spec.backends}
     problems = []
     for c in cases:
-        traces = {b: results[b].get(c.name, []) for b in spec.backends}
+        traces = {b: results[b].get(c.name, []) for b in spec.backends if c.meta.get("only", b) == b}
         pr = eval_case(spec, c, traces, out)
         if hasattr(spec, "cross"):
             for msg in spec.cross(c, traces):
                 pr.append(("oracle", msg, "both", None))
         if pr:
             problems.append((c, pr, traces))
-        elif len(out.samples) < 3 and spec.nontrivial(c, traces[spec.backends[-1]]):
+        elif len(out.samples) < 3 and spec.backends[-1] in traces and spec.nontrivial(c, traces[spec.backends[-1]]):
             tr = traces[spec.backends[-1]]
             out.samples.append({"case": c.name, "backend": spec.backends[-1],
                                 "ops_and_responses": [f"{o}  =>  {ri}" for o, ri, _ in tr[:40]]})
@@ -184,6 +184,8 @@ def run_l1_property(spec, tier, seed, replay=None, proof=None):
         for b in spec.backends:
             derived = []
             for c in cases:
+                if c.meta.get("only", b) != b:
+                    continue
                 for (dc, ctx) in spec.derive(c, results[b].get(c.name, []), b):
                     derived.append((c, dc, ctx))
             uniq = {}
